@@ -43,6 +43,7 @@ type QConfig struct {
 	DropPolicy       string        `json:"drop_policy,omitempty"`
 	RetentionMaxAge  time.Duration `json:"retention_max_age,omitempty"`
 	PruneInterval    time.Duration `json:"prune_interval,omitempty"`
+	PollInterval     time.Duration `json:"poll_interval,omitempty"` // SQLite long-poll timer (real time); W-conc sets it out of reach
 	DeliveredMaxAge  time.Duration `json:"delivered_max_age,omitempty"`
 	DLQMaxAge        time.Duration `json:"dlq_max_age,omitempty"`
 	DLQMaxDepth      int           `json:"dlq_max_depth,omitempty"`
